@@ -208,19 +208,16 @@ func c17Replay(tags []types.Type, m map[string]string) string {
 	var b strings.Builder
 	b.WriteString("package activitypub\n\nimport (\n\t\"testing\"\n\t\"time\"\n)\n\n")
 	b.WriteString("func TestVerifReplay(t *testing.T) {\n")
-	b.WriteString("\tat := func(n int64) time.Time { return time.Time{}.Add(time.Duration(n) * time.Second) }\n")
+	b.WriteString("\tat := func(n int64) time.Time { return time.Time{}.Add(time.Duration(n)) } // instants in ns after the zero time\n")
+	isNil := map[string]bool{}
 	mkItem := func(i string) string {
-		if m["nil"+i] == "true" {
-			var ti int
-			fmt.Sscan(m["tag"+i], &ti)
+		var ti int
+		fmt.Sscan(m["tag"+i], &ti)
+		if m["nil"+i] == "true" || ti < 0 || ti >= len(tags) {
+			isNil[i] = true
 			if ti >= 0 && ti < len(tags) && isPtr(tags[ti]) {
 				return fmt.Sprintf("Item((%s)(nil))", typeName(tags[ti]))
 			}
-			return "Item(nil)"
-		}
-		var ti int
-		fmt.Sscan(m["tag"+i], &ti)
-		if ti < 0 || ti >= len(tags) {
 			return "Item(nil)"
 		}
 		tn := typeName(tags[ti])
@@ -231,21 +228,24 @@ func c17Replay(tags []types.Type, m map[string]string) string {
 		return "Item(" + lit + ")"
 	}
 	fmt.Fprintf(&b, "\ti1 := %s\n\ti2 := %s\n", mkItem("1"), mkItem("2"))
-	b.WriteString(`	isNil := func(it Item) bool { return IsNil(it) }
-	key := func(it Item) time.Time {
-		var k time.Time
-		_ = OnObject(it, func(o *Object) error { k = o.Published; if o.Updated.After(k) { k = o.Updated }; return nil })
-		return k
+	num := func(k string) string {
+		if m[k] == "" {
+			return "0"
+		}
+		return m[k]
 	}
-	want := false
+	fmt.Fprintf(&b, "\tnil1, nil2 := %v, %v\n", isNil["1"], isNil["2"])
+	fmt.Fprintf(&b, "\tkey := func(pub, upd int64) int64 { if upd > pub { return upd }; return pub }\n")
+	fmt.Fprintf(&b, "\tk1, k2 := key(%s, %s), key(%s, %s)\n", num("pub1"), num("upd1"), num("pub2"), num("upd2"))
+	b.WriteString(`	want := false
 	switch {
-	case isNil(i1) && !isNil(i2):
+	case nil1 && !nil2:
 		want = true
-	case !isNil(i1) && !isNil(i2):
-		want = key(i1).After(key(i2))
+	case !nil1 && !nil2:
+		want = k1 > k2
 	}
 	if got := ItemOrderTimestamp(i1, i2); got != want {
-		t.Fatalf("ItemOrderTimestamp(%#v, %#v) = %v, specification says %v", i1, i2, got, want)
+		t.Fatalf("ItemOrderTimestamp(%#v, %#v) = %v, specification (later of published/updated is after the other's; nil first) says %v", i1, i2, got, want)
 	}
 }
 `)
